@@ -1,6 +1,6 @@
 From Coq Require Import List Arith Lia Bool.
 Import ListNotations.
-Require Import ScanFull InstsFull ObligJoin ObligGroups C04Join C11Groups C05Join C02Join.
+Require Import ScanFull InstsFull Pass ObligJoin ObligGroups C04Join C11Groups C05Join C02Join PassProofs.
 
 (* A Prop-valued trace statement gets a boolean decision function and a reflection lemma, so that the extracted function can be run on the
    implementation's trace as the monitor of §5.4.  Demonstrated for the ledger of the join family. *)
@@ -99,3 +99,66 @@ Theorem c05_b_holds selective tryj tuple scs ops : let w := join_run' selective 
   dropped _ w = false -> c05_b tryj (length scs) (strip (tr _ w)) = true.
 Proof. intros w Hd. apply c05_b_spec. exact (C05_join selective tryj tuple scs ops Hd). Qed.
 Print Assumptions c05_b_holds.
+
+(* ---- C06 (race) and C19 (wait_until) as boolean predicates over the trace ---- *)
+Definition out_eq_dec : forall a b : out, {a = b} + {a <> b}.
+Proof. decide equality; try apply list_eq_dec; try apply Nat.eq_dec. destruct key, key0; try (right; congruence); [destruct (Nat.eq_dec n n0); [left; congruence|right; congruence]|left; reflexivity]. Defined.
+Definition outs_eqb (a b: list out) : bool := if list_eq_dec out_eq_dec a b then true else false.
+Lemma outs_eqb_spec a b : outs_eqb a b = true <-> a = b.
+Proof. unfold outs_eqb. destruct (list_eq_dec out_eq_dec a b); split; auto; discriminate. Qed.
+Definition not_panic (a: ans) : bool := match a with APanic => false | _ => true end.
+Definition losing_b (P: list (nat * ans)) : bool := forallb (fun p => negb (is_win (snd p)) && not_panic (snd p)) P.
+Lemma losing_b_spec P : losing_b P = true <-> losing P.
+Proof.
+  unfold losing_b, losing. rewrite forallb_forall, Forall_forall. split; intros H p Hp; specialize (H p Hp).
+  - apply andb_true_iff in H as [A B]. apply negb_true_iff in A. split; [exact A|]. intros E. rewrite E in B. discriminate.
+  - destruct H as [A B]. rewrite A. cbn. destruct (snd p); auto; exfalso; apply B; reflexivity.
+Qed.
+Definition race_b (t: list ev) : bool :=
+  match results t with
+  | [] => losing_b (polls_from 0 t)
+  | rs => match rev (polls_from 0 t) with
+          | (i, a) :: P0r => is_win a && losing_b (rev P0r) && outs_eqb rs (win_val a)
+          | [] => false
+          end
+  end.
+Lemma race_b_of_Pr s fin t : Pr s fin t -> race_b t = true.
+Proof.
+  unfold Pr, race_b. destruct fin.
+  - intros (P0 & i & a & Hp & Hl & Hw & Hr). rewrite Hr, Hp, rev_app_distr. cbn [rev app].
+    destruct a as [|[v|e]| | |]; try discriminate; cbn [win_val]; rewrite rev_involutive, (proj2 (losing_b_spec P0) Hl); cbn; apply outs_eqb_spec; reflexivity.
+  - intros [Hl Hr]. rewrite Hr. apply losing_b_spec. exact Hl.
+Qed.
+Theorem race_b_holds scs ops :
+  let n := length scs in
+  let w := fold_left (p_step rst race_poll (fun s => drops_all (r_n s))) ops (mk_world {| r_off := 0; r_n := n |} false n scs) in
+  dropped _ w = false -> race_b (strip (tr _ w)) = true.
+Proof. intros n w Hd. eapply race_b_of_Pr. exact (C06_race scs ops Hd). Qed.
+
+(* wait_until: (0,Pending)* then, if the deadline resolved, (0,a0) (1,_)+ and the results are the inner's non-Pending answers *)
+Fixpoint skip_dl (P: list (nat * ans)) : list (nat * ans) :=
+  match P with (0, APend) :: r => skip_dl r | _ => P end.
+Definition wait_b (t: list ev) : bool :=
+  match skip_dl (polls_from 0 t) with
+  | [] => outs_eqb (results t) []
+  | (0, a0) :: P1 => not_panic a0 && negb (match a0 with APend => true | _ => false end) && negb (match P1 with [] => true | _ => false end)
+                     && forallb (fun p => fst p =? 1) P1 && outs_eqb (results t) (flat_map (fun p => res_of (snd p)) P1)
+  | _ => false
+  end.
+Lemma skip_dl_all P : Forall (fun p => p = (0, APend)) P -> forall Q, skip_dl (P ++ Q) = skip_dl Q.
+Proof. induction 1 as [|p P Hp _ IH]; intros Q; cbn; auto. subst p. apply IH. Qed.
+Lemma wait_b_of_Pw s t : Pw s t -> wait_b t = true.
+Proof.
+  unfold Pw, wait_b. destruct (u_started s).
+  - intros (P0 & a0 & P1 & Hp & H0 & Hn1 & Hn2 & Hne & H1 & Hr). rewrite Hp, (skip_dl_all P0 H0). cbn [skip_dl].
+    destruct a0 as [|r|v| |]; try contradiction; try (exfalso; apply Hn1; reflexivity); try (exfalso; apply Hn2; reflexivity);
+      (destruct P1 as [|p1 P1']; [contradiction|]); cbn [not_panic negb andb];
+      (rewrite (proj2 (forallb_forall _ _)); [cbn; apply outs_eqb_spec; exact Hr|]);
+      (intros p Hin; rewrite Forall_forall in H1; apply Nat.eqb_eq, H1, Hin).
+  - intros [H0 Hr]. rewrite <- (app_nil_r (polls_from 0 t)), (skip_dl_all _ H0). cbn. apply outs_eqb_spec. exact Hr.
+Qed.
+Theorem wait_b_holds stream scs ops :
+  let w := fold_left (p_step ust wait_poll (fun _ => [EDc 1; EDc 0])) ops (mk_world {| u_stream := stream; u_started := false |} false 2 scs) in
+  dropped _ w = false -> wait_b (strip (tr _ w)) = true.
+Proof. intros w Hd. eapply wait_b_of_Pw. exact (C19_wait_until stream scs ops Hd). Qed.
+Print Assumptions race_b_holds. Print Assumptions wait_b_holds.
